@@ -25,6 +25,8 @@ mod duration;
 pub use ser::{Duration, Timestamp};
 
 mod ser;
+#[cfg(cel_verif)]
+pub mod verif;
 pub use ser::to_value;
 pub use ser::SerializationError;
 
@@ -159,6 +161,13 @@ impl Program {
 
     pub fn execute(&self, context: &Context) -> ResolveResult {
         Value::resolve(&self.expression, context)
+    }
+
+    /// Verification seam: wraps an already built AST so that `execute` can be exercised
+    /// without running the parser (which is prohibitively slow under Miri).
+    #[cfg(cel_verif)]
+    pub fn from_expression(expression: Expression) -> Program {
+        Program { expression }
     }
 
     /// Returns the variables and functions referenced by the CEL program
